@@ -87,6 +87,10 @@ def gen_cases(ctx, count):
         for (m, o) in take:
             cases.append({"space": space, "kind": kind, "n": n, "ns": ns, "state": state, "cls": cls, "mode": m, "option": o,
                           "seed": seed, "policy": rng.choice(["on_t_sample", "on_iteration"]), "twice": rng.random() < 0.25})
+        if rng.random() < 0.3:
+            # the script's own default (keyword omitted): must behave like "auto"
+            cases.append({"space": space, "kind": kind, "n": n, "ns": ns, "state": state, "cls": cls, "mode": None,
+                          "option": rng.choice(OPTIONS), "seed": seed, "policy": "on_t_sample", "twice": False})
         if rng.random() < 0.15:
             cases.append({"space": space, "kind": kind, "n": n, "ns": ns, "state": state, "cls": cls, "mode": rng.choice(BAD_MODES),
                           "option": rng.choice(OPTIONS), "seed": seed, "policy": "on_t_sample", "twice": False})
@@ -107,8 +111,9 @@ def child_case(case, lib):
     system.state = list(case["state"])
     sent = [float(v) for v in system.state.value]
     try:
+        kw = {} if case["mode"] is None else {"init_state_processing": case["mode"]}
         script = st.RDScript(system, t_sample=[0], time_step=1 / 64, t_max=1 / 64, sampling_policy=case["policy"],
-                             rng_seed=case["seed"], init_state_processing=case["mode"])
+                             rng_seed=case["seed"], **kw)
     except (ValueError, TypeError) as ex:
         return {"raised": type(ex).__name__}
     out = {"sent": sent}
@@ -135,7 +140,7 @@ def child_case(case, lib):
 # oracle (the property's own predicate, on the real code's output)
 # ---------------------------------------------------------------------------------------------
 def effective_mode(mode, option):
-    if mode == "auto":
+    if mode == "auto" or mode is None:
         return "none" if option == "euler" else "redist"
     return mode
 
@@ -149,12 +154,14 @@ def oracle(case, res):
     fails = []
     n, ns = case["n"], case["ns"]
     mode = case["mode"]
-    if mode not in MODES:
+    if mode is not None and mode not in MODES:
         if "raised" not in res:
             fails.append(("bad-mode-accepted", "init_state_processing=%r was accepted" % mode))
         return fails, False
     if "raised" in res:
         return [("mode-rejected:%s" % mode, "documented mode %r raised %s" % (mode, res["raised"]))], False
+    if mode is None:
+        mode = "auto"
     if res.get("hang"):
         return [("hang:%s" % effective_mode(mode, case["option"]),
                  "initial-state processing did not terminate within %ss" % res.get("timeout_s"))], False
@@ -244,8 +251,8 @@ def model_op(case, res):
             draws.append(["pois", int(r)])
         else:
             draws.append([k, rstr(r)])
-    return {"op": "init_state", "mode": case["mode"], "option": case["option"], "n": case["n"], "ns": case["ns"],
-            "x": [rstr(v) for v in case["state"]], "draws": draws}
+    return {"op": "init_state", "mode": case["mode"] if case["mode"] is not None else "auto", "option": case["option"],
+            "n": case["n"], "ns": case["ns"], "x": [rstr(v) for v in case["state"]], "draws": draws}
 
 
 def compare_model(ctx, case, res, ans):
@@ -300,7 +307,9 @@ def run(ctx):
         for k, (case, res) in enumerate(zip(part, results)):
             if res is None:
                 continue
-            em = effective_mode(case["mode"], case["option"]) if case["mode"] in MODES else "rejected"
+            em = effective_mode(case["mode"], case["option"]) if (case["mode"] in MODES or case["mode"] is None) else "rejected"
+            if case["mode"] is None:
+                ctx.count("default_mode_cases")
             fp = (tuple(case["state"]), case["mode"], case["option"], case["kind"], case["seed"])
             ctx.case(fp, nontrivial=any(v != 0 for v in case["state"]) or em == "rejected",
                      sample={"op": "init_state", "mode": case["mode"], "option": case["option"], "state": case["state"],
@@ -331,7 +340,7 @@ def run(ctx):
             if amb:
                 continue
             ops.append(model_op(case, res) if "raised" not in res else
-                       {"op": "init_state", "mode": case["mode"], "option": case["option"], "n": case["n"], "ns": case["ns"],
+                       {"op": "init_state", "mode": "auto" if case["mode"] is None else case["mode"], "option": case["option"], "n": case["n"], "ns": case["ns"],
                         "x": [rstr(v) for v in case["state"]], "draws": []})
             idx.append(k)
         answers = ctx.model.run(ops)
